@@ -190,6 +190,10 @@ def check_engine(prop, tier, seed):
     det_mod = {'env': (97 if tier == 'thorough' else 29),
                'prim': (211 if tier == 'thorough' else 101),
                'sched': (197 if tier == 'thorough' else 23)}[engine]
+    canaries = {}
+    if engine == 'env':
+        for v in variants:
+            canaries[v] = V.run_canaries(sims[v], os.path.join(outdir, 'canary-' + v))
     det_runs = {}
     audit_msgs = []
     for v in variants:
@@ -256,6 +260,7 @@ def check_engine(prop, tier, seed):
                 for s in summaries],
         determinism_audit_runs=det_runs,
         determinism_audit_notes=audit_msgs,
+        seam_canaries=canaries,
         components=ei['components'],
         known_findings_hit=all_known,
         exhaustive=False,
